@@ -5,18 +5,24 @@ import vlib, scopegen
 
 def observe(lines, obs):
     """bindings of every use, in use order, from the document dump (BIND 1, builder stage)"""
-    var, funl, inv, guard = {}, {}, {}, {}
+    var, funl, inv, guard, vty = {}, {}, {}, {}, {}
     for l in lines:
-        m = re.match(r'(global|t\d+) var \d+ (u\d+) : .*? = (.*)$', l)
-        if m: var[m.group(2)] = m.group(3); continue
-        m = re.match(r'(global|t\d+) funlocal (f\d+) (u\d+) : .*? = (.*)$', l)
-        if m: funl[m.group(3)] = m.group(4); continue
+        m = re.match(r'(global|t\d+) var \d+ (u\d+) : (.*?) = (.*)$', l)
+        if m: var[m.group(2)] = m.group(4); vty[m.group(2)] = m.group(3); continue
+        m = re.match(r'(global|t\d+) funlocal (f\d+) (u\d+) : (.*?) = (.*)$', l)
+        if m: funl[m.group(3)] = m.group(5); vty[m.group(3)] = m.group(4); continue
         m = re.match(r't(\d+) loc nr=(\d+) .*? inv=(.*) exprate=', l)
         if m: inv[(int(m.group(1)), int(m.group(2)))] = m.group(3); continue
         m = re.match(r't(\d+) edge nr=(\d+) .*? guard=(.*) sync=', l)
         if m: guard[(int(m.group(1)), int(m.group(2)))] = m.group(3); continue
     out = []
     for kind, key, n in obs:
+        if kind.endswith(':type'):
+            # a variable declared with the type name t: the typedef it is bound to shows in the variable's type
+            t = vty.get(key[1])
+            mm = re.search(r'\(label t:\(range \(int\) "0" "(\d+)"\)\)', t or '')
+            out.append('missing' if t is None else (str(int(mm.group(1)) - 100) if mm else '?'))
+            continue
         if kind == 'funlocal': e = funl.get(key[1])
         elif kind == 'inv': e = inv.get(key)
         elif kind == 'guard': e = guard.get(key)
@@ -99,6 +105,8 @@ def qualified(run, thorough):
                     elif et is not None and not same_type(ot, et):
                         run.fail('%s.%s has type %s; with the arguments of %s substituted the declared type is %s' % (P['name'], m, ot, P['name'], et), dict(xml=xml, query=text, observed=ot, expected=et, mapping=[(names[s], scopegen.bshow(a, names)) for s, a in P['mapping']]),
                                  shape='qualified:wrong-type')
+    nps = scopegen.process_set_probes(run, vlib, rng, 60 if thorough else 16)
+    stats['process_set_queries'] = nps
     return stats
 
 
